@@ -18,17 +18,21 @@ func init() {
 
 // malformed line kinds: (indentation+dash)(name)(rest); never nan/inf/hex/underscore values, which ParseFloat accepts
 var c09Bad = []func(name string) string{
-	func(n string) string { return "  " + n },                // single token
-	func(n string) string { return "\t" + n + ":1" },         // no blank before the value
-	func(n string) string { return "  - " + n },              // dash, single token
-	func(n string) string { return "  " + n + ": abc" },      // not a number
-	func(n string) string { return "    " + n + ": 1,5" },    // decimal comma
-	func(n string) string { return "  " + n + ": 1.2.3" },    // two points
-	func(n string) string { return " \t" + n + ": --1" },     // double sign
-	func(n string) string { return "  - " + n + ": 1x" },     // trailing junk
-	func(n string) string { return "  " + n + ":  1e" },      // empty exponent
-	func(n string) string { return "  \"" + n + "\": ٣" },    // non-ASCII digit
-	func(n string) string { return "  " + n + " two: 1 2x" }, // name with blank, bad value
+	func(n string) string { return "  " + n },                   // single token
+	func(n string) string { return "\t" + n + ":1" },            // no blank before the value
+	func(n string) string { return "  - " + n },                 // dash, single token
+	func(n string) string { return "  " + n + ": abc" },         // not a number
+	func(n string) string { return "    " + n + ": 1,5" },       // decimal comma
+	func(n string) string { return "  " + n + ": 1.2.3" },       // two points
+	func(n string) string { return " \t" + n + ": --1" },        // double sign
+	func(n string) string { return "  - " + n + ": 1x" },        // trailing junk
+	func(n string) string { return "  " + n + ":  1e" },         // empty exponent
+	func(n string) string { return "  \"" + n + "\": ٣" },       // non-ASCII digit
+	func(n string) string { return "  " + n + " two: 1 2x" },    // name with blank, bad value
+	func(n string) string { return "  " + n + " 3.5% fat: 1x" }, // percent sign in the name
+	func(n string) string { return "  " + n + "-20%" },          // single token ending in a percent sign
+	func(n string) string { return "  " + n + " %s %d: 100%" },  // printf-looking text, percent value
+	func(n string) string { return "  " + n + `\n: 1\t2` },      // backslash sequences
 }
 
 // plant inserts k malformed lines below the first heading; returns the new text and the (1-based position, raw line) list in file order.
